@@ -1,2 +1,128 @@
-(* Props/C05.v — placeholder until Proofs/C05.v lands (see tools/claims). *)
-From Coq Require Import ZArith.
+(* Props/C05.v — property C05: CIDR summarisation is exact and minimal (cidr_merge, iprange_to_cidrs).
+   Nothing but statements closed by `exact`, each followed by Print Assumptions.
+   Vocabulary (Proofs/NetDen.v): wf_net n = version 4/6, value and prefix in range (host bits allowed);
+   nf / nl = first / last address; den l ver x = address (ver, x) lies in some network of l;
+   wf_mitem = a well-formed network (host bits allowed) or a range 0 <= s <= e < 2^width of version 4/6;
+   den_items = the union of the inputs; canon_nets l = every block well formed and host-bit-free, IPv4 blocks
+   before IPv6 blocks, each family canonical in the sense of Base/Canon.v (aligned, strictly ascending, pairwise
+   disjoint, no two blocks siblings); fam ver l = the blocks of l of one family. *)
+From NV Require Import Base.Tac Base.PyVal Base.Canon Model.Ip Model.Span Model.Merge Model.Sets
+  Proofs.C02 Proofs.NetDen Proofs.C05.
+From Coq Require Import Sorting.Permutation.
+Open Scope Z_scope.
+
+(* iprange_to_cidrs(start, end) for two networks of one family with start.first <= end.last: returns normally the
+   canonical list of exactly the interval [start.first, end.last] *)
+Theorem C05_iprange_to_cidrs : forall s e, wf_net s -> wf_net e -> nver s = nver e -> nf s <= nl e ->
+  exists l, iprange_to_cidrs s e = Ok l /\ canon_nets l /\
+    forall ver x, den l ver x <-> (ver = nver s /\ nf s <= x <= nl e).
+Proof. exact C05_range. Qed.
+Print Assumptions C05_iprange_to_cidrs.
+
+(* the form used by IPRange.cidrs(), glob_to_cidrs and cidr_merge: address endpoints 0 <= lo <= hi < 2^width *)
+Theorem C05_iprange_addresses : forall ver lo hi, valid_ver ver = true -> 0 <= lo <= hi -> hi < 2 ^ width ver ->
+  exists l, iprange_to_cidrs (addr_net ver lo) (addr_net ver hi) = Ok l /\ canon_nets l /\
+    forall v x, den l v x <-> v = ver /\ lo <= x <= hi.
+Proof. exact C05_range_addrs. Qed.
+Print Assumptions C05_iprange_addresses.
+
+(* cidr_merge of any finite list of well-formed inputs (networks with or without host bits, addresses as /32 or /128
+   networks, ranges; both families, any order, duplicates): returns normally the canonical list of exactly the union *)
+Theorem C05_cidr_merge : forall items, Forall wf_mitem items ->
+  exists l, cidr_merge items = Ok l /\ canon_nets l /\ forall ver x, den l ver x <-> den_items items ver x.
+Proof. exact C05_merge. Qed.
+Print Assumptions C05_cidr_merge.
+
+(* a set of addresses has at most one canonical list ... *)
+Theorem C05_canon_unique : forall l1 l2, canon_nets l1 -> canon_nets l2 ->
+  (forall ver x, den l1 ver x <-> den l2 ver x) -> l1 = l2.
+Proof. exact canon_nets_unique. Qed.
+Print Assumptions C05_canon_unique.
+
+(* ... and no list of networks with the same addresses (host bits allowed, any order, overlaps allowed) is shorter,
+   family by family *)
+Theorem C05_canon_minimal : forall l l', canon_nets l -> Forall wf_net l' ->
+  (forall ver x, den l ver x <-> den l' ver x) ->
+  (length (fam 4 l) <= length (fam 4 l'))%nat /\ (length (fam 6 l) <= length (fam 6 l'))%nat /\
+  (length l <= length l')%nat.
+Proof. exact canon_nets_minimal. Qed.
+Print Assumptions C05_canon_minimal.
+
+(* so the result of cidr_merge is the unique canonical list of the union, and a shortest list of the union *)
+Theorem C05_merge_unique : forall items l l', Forall wf_mitem items -> cidr_merge items = Ok l ->
+  canon_nets l' -> (forall ver x, den l' ver x <-> den_items items ver x) -> l' = l.
+Proof. exact C05_unique. Qed.
+Print Assumptions C05_merge_unique.
+
+Theorem C05_merge_minimal : forall items l l', Forall wf_mitem items -> cidr_merge items = Ok l ->
+  Forall wf_net l' -> (forall ver x, den l' ver x <-> den_items items ver x) ->
+  (length (fam 4 l) <= length (fam 4 l'))%nat /\ (length (fam 6 l) <= length (fam 6 l'))%nat /\
+  (length l <= length l')%nat.
+Proof. exact C05_minimal. Qed.
+Print Assumptions C05_merge_minimal.
+
+Theorem C05_iprange_unique : forall s e l l', wf_net s -> wf_net e -> nver s = nver e -> nf s <= nl e ->
+  iprange_to_cidrs s e = Ok l ->
+  canon_nets l' -> (forall ver x, den l' ver x <-> (ver = nver s /\ nf s <= x <= nl e)) -> l' = l.
+Proof. exact C05_range_unique. Qed.
+Print Assumptions C05_iprange_unique.
+
+Theorem C05_iprange_minimal : forall s e l l', wf_net s -> wf_net e -> nver s = nver e -> nf s <= nl e ->
+  iprange_to_cidrs s e = Ok l ->
+  Forall wf_net l' -> (forall ver x, den l' ver x <-> (ver = nver s /\ nf s <= x <= nl e)) ->
+  (length l <= length l')%nat.
+Proof. exact C05_range_minimal. Qed.
+Print Assumptions C05_iprange_minimal.
+
+(* the result depends only on the set of addresses of the inputs: not on their order ... *)
+Theorem C05_order_free : forall xs ys, Forall wf_mitem xs -> Permutation xs ys -> cidr_merge xs = cidr_merge ys.
+Proof. exact C05_perm_invariant. Qed.
+Print Assumptions C05_order_free.
+
+(* ... nor on repetition ... *)
+Theorem C05_repetition_free : forall xs ys, Forall wf_mitem xs -> (forall m, In m xs <-> In m ys) ->
+  cidr_merge xs = cidr_merge ys.
+Proof. exact C05_dup_invariant. Qed.
+Print Assumptions C05_repetition_free.
+
+(* ... nor on how the same addresses are presented *)
+Theorem C05_denotation_only : forall xs ys, Forall wf_mitem xs -> Forall wf_mitem ys ->
+  (forall ver x, den_items xs ver x <-> den_items ys ver x) -> cidr_merge xs = cidr_merge ys.
+Proof. exact C05_extensional. Qed.
+Print Assumptions C05_denotation_only.
+
+(* merging the result again changes nothing (every canonical list is a fixed point) *)
+Theorem C05_merge_idempotent : forall items l, Forall wf_mitem items -> cidr_merge items = Ok l ->
+  cidr_merge (map MNet l) = Ok l.
+Proof. exact C05_idempotent. Qed.
+Print Assumptions C05_merge_idempotent.
+
+Theorem C05_canonical_fixpoint : forall l, canon_nets l -> cidr_merge (map MNet l) = Ok l.
+Proof. exact C05_canon_fixpoint. Qed.
+Print Assumptions C05_canonical_fixpoint.
+
+(* a single range through cidr_merge and through iprange_to_cidrs give the same list *)
+Theorem C05_merge_range_agree : forall ver lo hi, valid_ver ver = true -> 0 <= lo <= hi -> hi < 2 ^ width ver ->
+  cidr_merge [MRange ver lo hi] = iprange_to_cidrs (addr_net ver lo) (addr_net ver hi).
+Proof. exact C05_merge_one_range. Qed.
+Print Assumptions C05_merge_range_agree.
+
+(* non-vacuity: 10.0.0.1/24 (host bits), the range 10.0.1.0-10.0.1.127, the address 10.0.1.128 and ::/127 meet the
+   hypotheses; the result is 10.0.0.0/24, 10.0.1.0/25, 10.0.1.128/32, ::/127 *)
+Example C05_nonvacuous :
+  let items := [ MNet {| nver := 6; nval := 1; nplen := 127 |};
+                 MNet {| nver := 4; nval := 167772417 + 127; nplen := 32 |};
+                 MRange 4 167772416 (167772416 + 127);
+                 MNet {| nver := 4; nval := 167772161; nplen := 24 |} ] in
+  Forall wf_mitem items /\
+  cidr_merge items = Ok [ {| nver := 4; nval := 167772160; nplen := 24 |}; {| nver := 4; nval := 167772416; nplen := 25 |};
+                          {| nver := 4; nval := 167772544; nplen := 32 |}; {| nver := 6; nval := 0; nplen := 127 |} ] /\
+  iprange_to_cidrs {| nver := 4; nval := 167772161; nplen := 32 |} {| nver := 4; nval := 167772164; nplen := 32 |}
+    = Ok [ {| nver := 4; nval := 167772161; nplen := 32 |}; {| nver := 4; nval := 167772162; nplen := 31 |};
+           {| nver := 4; nval := 167772164; nplen := 32 |} ].
+Proof.
+  cbn zeta. split; [|split].
+  - repeat constructor; cbn; lia.
+  - vm_compute. reflexivity.
+  - vm_compute. reflexivity.
+Qed.
